@@ -201,10 +201,31 @@ fn run_case(seed: u64, index: u64, md: &mut Model, rep: &mut Report) {
     if rep.samples.len() < 3 && interesting { rep.sample(json!({"case": index, "leader_gc": gc, "script": script})); }
 }
 
+/// Fixed input found by the Coq transcription of commit (Crdt/Commit.v: the firing condition compared two cached state vectors): a
+/// transaction that reads `after_state()` while it is still open and inserts afterwards must still emit its update.
+fn fixed_inputs(rep: &mut Report) {
+    use std::sync::{Arc, Mutex};
+    use yrs::{GetString, Text, Transact};
+    use yrs::updates::decoder::Decode;
+    rep.count("c07_fixed_inputs");
+    let leader = mk_doc(2, DocCfg::default());
+    let t = leader.get_or_insert_text("t");
+    let log: Arc<Mutex<Vec<Vec<u8>>>> = Arc::new(Mutex::new(vec![])); let l2 = log.clone();
+    let _sub = leader.observe_update_v1(move |_, e| l2.lock().unwrap().push(e.update.clone())).unwrap();
+    { let mut txn = leader.transact_mut(); t.insert(&mut txn, 0, "a"); }
+    { let mut txn = leader.transact_mut(); let _ = txn.after_state().clone(); t.insert(&mut txn, 1, "b"); }
+    let follower = mk_doc(9, DocCfg::default());
+    let ft = follower.get_or_insert_text("t");
+    for u in log.lock().unwrap().iter() { if let Ok(up) = yrs::Update::decode_v1(u) { let _ = follower.transact_mut().apply_update(up); } }
+    let (a, b) = (t.get_string(&leader.transact()), ft.get_string(&follower.transact()));
+    if a != b { rep.fail(json!({"property": "C07", "class": "no-event-for-a-transaction-that-changed-the-document", "input": "fixed: a transaction reads after_state() and inserts afterwards", "leader": a, "follower_fed_by_the_events": b, "events": log.lock().unwrap().len(), "case": {"stream": 108, "index": 0}})); }
+}
+
 pub fn run(tier: &str, seed: u64, workers: usize) -> Report {
     let n = if tier == "thorough" { 80000 } else { 12000 };
     let mut total = parallel(workers, |w, nw| {
         let mut rep = Report::default();
+        if w == 0 { if let Err(e) = catch(std::panic::AssertUnwindSafe(|| fixed_inputs(&mut rep))) { rep.fail(json!({"property": "C07", "class": "panic", "error": e, "case": {"stream": 108, "index": 0}})); } }
         for ci in 0..n {
             if ci as usize % nw != w { continue; }
             let res = catch(std::panic::AssertUnwindSafe(|| { let mut r2 = Report::default(); let mut m2 = Model::spawn(); run_case(seed, ci, &mut m2, &mut r2); r2 }));
